@@ -149,7 +149,9 @@ def extract_reuse_info(text: str) -> ReuseInfo:
     # License expressions and copyright matches are special cases.
     expressions = set()
     copyright_matches = set()
-    for expression in spdx_tags.pop("spdx_expressions"):
+    # Sorted: of two spellings that compare equal ('A OR B', 'B OR A'), the
+    # same one must win whatever the iteration order of the set happens to be.
+    for expression in sorted(spdx_tags.pop("spdx_expressions")):
         try:
             expressions.add(_LICENSING.parse(expression))
         except (ExpressionError, ParseError):
